@@ -180,7 +180,13 @@ class Interp:
                     try:
                         v = ast.literal_eval(a.value)
                     except Exception:
-                        continue
+                        # an expression over earlier constants (no calls, no attribute access): evaluate it
+                        if any(isinstance(q, (ast.Call, ast.Attribute, ast.Lambda, ast.Subscript)) for q in ast.walk(a.value)):
+                            continue
+                        try:
+                            v = s.ev(a.value, {'__globals__': g})
+                        except Exception:
+                            continue
                     if isinstance(v, (tuple, str, int, float, frozenset)) or v is None:
                         g[tn] = v
         return g
@@ -400,8 +406,17 @@ class Interp:
             elif isinstance(a, bool) and isinstance(b, (list, tuple)) and any(isz(x) for x in b):
                 # `True in flags` with symbolic flags
                 r = simp(z3.Or(*[(B(x) if a else z3.Not(B(x))) for x in b if isz(x) or isinstance(x, bool)]))
+            elif isinstance(b, (list, tuple)) and (isz(a) or any(isz(x) for x in b)) and \
+                    all((isz(x) or is_conc(x)) and not isinstance(x, bool) for x in list(b) + [a]):
+                # membership among integers, some of them symbolic: a disjunction of equalities
+                r = simp(z3.Or(*[I(a) == I(x) for x in b])) if len(b) else False
+            elif isinstance(b, (list, tuple, dict, str, range, set, frozenset)):
+                if isz(a) or (isinstance(b, (list, tuple)) and any(isz(x) for x in b)):
+                    raise Unsupported('membership test on symbolic non-integer values')
+                r = any((x is a) or (type(x) == type(a) and x == a) or
+                        (isinstance(x, (int, float)) and isinstance(a, (int, float)) and not isinstance(x, bool) and not isinstance(a, bool) and x == a) for x in b)
             else:
-                r = any((x is a) or (not isz(x) and not isz(a) and type(x) == type(a) and x == a) for x in b)
+                raise Unsupported('membership test in %s' % type(b).__name__)
             if isz(r):
                 return r if isinstance(op, ast.In) else simp(z3.Not(r))
             return r if isinstance(op, ast.In) else (not r)
@@ -565,10 +580,27 @@ class Interp:
                 out[s.ev(n.key, e2)] = s.ev(n.value, e2)
         return out
 
-    def comp(s, n, env):
-        if len(n.generators) != 1:
-            raise Unsupported('nested comprehension')
-        g = n.generators[0]
+    def comp(s, n, env, gens=None):
+        gens = n.generators if gens is None else gens
+        if len(gens) > 1:
+            # for a in A for b in B(a): the outer generator drives, the rest is evaluated in its scope
+            g0 = gens[0]
+            it0 = s.ev(g0.iter, env)
+            if isinstance(it0, dict):
+                it0 = list(it0)
+            if not isinstance(it0, (list, tuple, range)):
+                raise Unsupported('comprehension over non-concrete iterable')
+            out = []
+            for v in it0:
+                e2 = dict(env)
+                s.assign(g0.target, v, e2)
+                if all(s.truth(s.ev(c, e2)) for c in g0.ifs):
+                    r = s.comp(n, e2, gens[1:])
+                    if isinstance(r, PList):
+                        raise Unsupported('symbolic-length inner comprehension')
+                    out.extend(r)
+            return out
+        g = gens[0]
         it = s.ev(g.iter, env)
         if isinstance(it, s.P.SymRange) and not g.ifs and isinstance(g.target, ast.Name):
             # [e for _ in range(n)] with symbolic n and e independent of the loop variable: the periodic list [e] * n
@@ -826,6 +858,8 @@ class Interp:
         if not force_body:
             c = s.contracts.get(key) or s.contracts.get(qual)
             if c is not None:
+                if kw:
+                    args, kw = s.bind_positional(modkey, qual, args, kw)
                 return c(s, *args, **kw)
         fn = front.func(modkey, qual)
         s.cur_fn.append((modkey, qual))
@@ -833,6 +867,28 @@ class Interp:
             return s.invoke(fn, qual, args, kw, {'__globals__': s.globals_of(modkey)}, {'__globals__': s.globals_of(modkey)})
         finally:
             s.cur_fn.pop()
+
+    def bind_positional(s, modkey, qual, args, kw):
+        """contracts take the arguments of the function they stand for positionally: keyword arguments of the real call
+        site are moved to their positions (defaults filled in between); unknown keywords are left to the contract"""
+        try:
+            fn = front.func(modkey, qual)
+        except Exception:
+            return args, kw
+        params = [p.arg for p in fn.args.args]
+        if qual.endswith('.apply') or not params:
+            return args, kw
+        defaults = dict(zip(params[len(params) - len(fn.args.defaults):], fn.args.defaults))
+        args = list(args)
+        kw = dict(kw)
+        for p in params[len(args):]:
+            if p in kw:
+                args.append(kw.pop(p))
+            elif p in defaults and any(q in kw for q in params[params.index(p):]):
+                args.append(s.ev(defaults[p], {'__globals__': s.globals_of(modkey)}))
+            else:
+                break
+        return args, kw
 
     def invoke(s, fn, qual, args, kw, env, defenv):
         a = fn.args
